@@ -15,6 +15,7 @@ use std::sync::Mutex;
 pub mod conc;
 pub mod interp;
 pub mod monitors;
+pub mod talloc;
 
 // ------------------------------------------------------------------------------------------
 // hex helpers
@@ -273,8 +274,14 @@ fn leak_own_buffer(content: &str) -> &'static str {
     unsafe { std::str::from_utf8_unchecked(std::slice::from_raw_parts(v.as_ptr(), content.len())) }
 }
 
-/// Builds the pool of a case from its `P=` value (without the `P=` prefix)
+/// Builds the pool of a case from its `P=` value (without the `P=` prefix).
+/// The own-buffer entries are leaked on purpose and cached for the rest of the process: none
+/// of this is part of what a case must release (`talloc::untracked`).
 pub fn build_pool(spec: &str) -> Result<Vec<&'static str>, String> {
+    talloc::untracked(|| build_pool_inner(spec))
+}
+
+fn build_pool_inner(spec: &str) -> Result<Vec<&'static str>, String> {
     let mut pool: Vec<&'static str> = Vec::new();
     if spec == "-" {
         return Ok(pool);
